@@ -83,6 +83,52 @@ theorem C20_prepare2 (mem : Int → α) (v : View2) (i k : Nat) (hi : i < v.n) (
   · rename_i h; exact View2.kernel_eq_get mem v h i k hi hk
   · exact (View2.copyC_spec mem v).2.2.2 i k hi hk
 
+/-- **Layout independence for a 3-D collection** (`n` series × `len` points × `d` values handed to the
+matrix routines as one block): after the guard, series `i`, point `j`, value `k` is read at offset
+`(i*len + j)*d + k`, whatever the strides of the array the caller passed. -/
+theorem C20_prepare3 (mem : Int → α) (v : View3) (i j k : Nat) (hi : i < v.n) (hj : j < v.len) (hk : k < v.d) :
+    (v.prepare mem).2.kernel (v.prepare mem).1 i j k = v.get mem i j k := by
+  unfold View3.prepare
+  split
+  · rename_i h
+    simp only [View3.cContig, Bool.and_eq_true, Bool.or_eq_true, decide_eq_true_eq] at h
+    obtain ⟨⟨h2, h1⟩, h0⟩ := h
+    simp only [View3.kernel, View3.get]
+    congr 1
+    have hk' : (k : Int) * v.s2 = k := by
+      rcases h2 with h2 | h2
+      · have : k = 0 := by omega
+        subst this; simp
+      · rw [h2]; simp
+    have hj' : (j : Int) * v.s1 = j * v.d := by
+      rcases h1 with h1 | h1
+      · have : j = 0 := by omega
+        subst this; simp
+      · rw [h1]
+    have hi' : (i : Int) * v.s0 = i * (v.len * v.d) := by
+      rcases h0 with h0 | h0
+      · have : i = 0 := by omega
+        subst this; simp
+      · rw [h0]
+    rw [hk', hj', hi']
+    push_cast
+    ring
+  · simp only [View3.copyC, View3.kernel, zero_add, Int.toNat_natCast]
+    have hd : 0 < v.d := by omega
+    have hl : 0 < v.len := by omega
+    have hld : 0 < v.len * v.d := Nat.mul_pos hl hd
+    have hlt : j * v.d + k < v.len * v.d := by
+      calc j * v.d + k < j * v.d + v.d := by omega
+        _ = (j + 1) * v.d := by ring
+        _ ≤ v.len * v.d := Nat.mul_le_mul_right _ (by omega)
+    have e : (i * v.len + j) * v.d + k = (v.len * v.d) * i + (j * v.d + k) := by ring
+    rw [e, Nat.mul_add_div hld, Nat.div_eq_of_lt hlt, Nat.add_zero, Nat.mul_add_mod, Nat.mod_eq_of_lt hlt]
+    have e2 : j * v.d + k = v.d * j + k := by ring
+    have e3 : (v.len * v.d * i + (j * v.d + k)) % v.d = k := by
+      rw [show v.len * v.d * i + (j * v.d + k) = v.d * (v.len * i + j) + k by ring, Nat.mul_add_mod,
+        Nat.mod_eq_of_lt hk]
+    rw [e3, e2, Nat.mul_add_div hd, Nat.div_eq_of_lt hk, Nat.add_zero]
+
 /-- … and the weaker guard `contiguous` (C **or** Fortran order) would not do: a 2×2 Fortran-ordered
 view of four distinct numbers is passed through unchanged and the kernel reads the transposed content -/
 theorem C20_any_flag_insufficient :
